@@ -220,6 +220,40 @@ class Oracle:
         return self.memo_rate[key]
 
 
+def _rate_unfitted(self, cid, pipe, rargs, settings=None, applied=True):
+    """what a FRESH curve with the same pipeline applied and no fit gets
+    from rate_quality (the statement allows -1 or 0 there; whichever it is,
+    it is the same for every object in that state)"""
+    settings = settings or {}
+    key = ("unfitted", cid, world._norm(pipe[0]), world._norm(pipe[1]),
+           rater_key(rargs), bool(applied), self.settings_key(settings))
+    if key not in self.memo_rate:
+        self.terms += 1
+        try:
+            idnt = self.factories[cid]()
+            with warnings.catch_warnings():
+                warnings.simplefilter("ignore")
+                if applied:
+                    idnt.apply_preprocessing(copy.deepcopy(list(pipe[0])),
+                                             copy.deepcopy(dict(pipe[1])))
+                # (the same settings stored, nothing fitted)
+                for k in sorted(settings):
+                    idnt.fit_properties[k] = copy.deepcopy(settings[k])
+                val = idnt.rate_quality(
+                    regressor=rargs["regressor"],
+                    training_set=copy.deepcopy(rargs["training_set"]),
+                    names=copy.deepcopy(rargs["names"]), lda=rargs["lda"])
+            self.memo_rate[key] = fhex(val)
+        except BaseException as exc:
+            if isinstance(exc, (KeyboardInterrupt, SystemExit)):
+                raise
+            self.memo_rate[key] = ("raise", type(exc).__name__)
+    return self.memo_rate[key]
+
+
+Oracle.rate_unfitted = _rate_unfitted
+
+
 def _reg_defaults():
     """the regressor table as shipped, captured when this module is first
     imported (before any library call could have touched it)"""
